@@ -55,6 +55,15 @@ def query(o, form, q):
     raise ValueError(q)
 
 
+def decode(o, x):
+    """get_routes(x) in canonical form (or an error kind)"""
+    try:
+        r = o.get_routes(np.asarray(x, dtype=float))
+        return core.jsonable([[tuple(F(y) if isinstance(y, float) else (int(y) if not isinstance(y, str) else y) for y in (st if isinstance(st, tuple) else (st,))) for st in route] for route in r])
+    except Exception as e:  # noqa
+        return "raise:" + core.err_kind(e)
+
+
 def full_state(o, form):
     st = {}
     for q in ["n", "tup", "idx", "obj", "con", "qubo_o", "qubo_f", "routes"]:
